@@ -65,7 +65,7 @@ TABLE = {
             "dominating blank-name guard; AnalyzerItem calls never pass both length and end; lint has a catch-all. "
             "Covers every method text and tag/command set because the rule is about all paths of the visitors.",
             "Decides the lookup/report discipline of analyzer.py; exceptions raised inside pint or by validators of "
-            "UOD-defined commands are outside; one justified site is listed in the rule with its reason."),
+            "UOD-defined commands are outside; one justified site is listed in the rule with its reason. Module-level helpers of the analyzer modules are audited like methods (R19f)."),
     "C23": ("finite abstract interpretation: 5-state recovery machine extracted from the source vs. the documented table",
             "ErrorRecoveryDecorator's methods are interpreted over the domain {self.state} x {Connection Status written} "
             "with hardware outcomes and time comparisons nondeterministic; the extracted transition edges must equal the "
@@ -74,7 +74,7 @@ TABLE = {
             "Disconnected/Error must raise, and last-known-good values are written only on successful reads. Exhaustive "
             "over states and paths, hence over all fault sequences, for the abstracted machine.",
             "Abstraction: only self.state/status writes and guards are interpreted; timeouts are nondeterministic "
-            "booleans (their arithmetic is not decided); logging calls are assumed not to raise."),
+            "booleans (their arithmetic is not decided); logging calls are assumed not to raise. R23d also enumerates every mutation or removal of last_known_good_reads outside the success path (a cleared cache makes a masked read return None)."),
     "C24": ("kill rule for superseded pending writes + flush/ownership/filter-completeness rules on CFGs",
             "On every path after a successful decorated write the pending entries of the written registers must be "
             "removed (directly or through the verified summary of _write_pending_values whose state guard is shown true "
@@ -126,13 +126,13 @@ TABLE = {
             "Scheduling model read off CommandManager (newest request first, one generator step per tick, commands orphaned "
             "by _stop_interpreter); calls outside the domain have only the tabulated effects (evidence.call_model); timed waits "
             "are nondeterministic. set_error_state from a stopped engine breaks the invariant but is outside the property's "
-            "quantifier (recorded by the thorough tier as observation)."),
+            "quantifier (recorded by the thorough tier as observation). The execution order of the commands due in one tick (newest first / appended / stable sort by a name predicate) is extracted from CommandManager.execute_commands, not assumed; an unrecognised reordering exits 2."),
     "C07": ("abstract interpretation of update_calculated_tags over System State + sibling rule and model check for the Block/Scope Time gate + run-start sibling agreement",
             "Which System States let Process/Run Time advance is computed by interpreting update_calculated_tags for every "
             "state; the Block/Scope Time gate table is extracted from tags_impl and every site that leaves Running must emit a "
             "closing signal (confirmed on the extracted run-state machine with faults); Start and the last segment of "
             "Restart must perform the same resets.",
-            "Numeric increments and threshold timing are not decided. Hold and the error pause emit no signal today (open known findings)."),
+            "Numeric increments and threshold timing are not decided. Hold and the error pause emit no signal today (open known findings). Also decided (R07d): the emit_* methods the clock gate depends on reach their fan-out loop on every path (delivery is unconditional), which is the call model the machine uses."),
     "C08": ("reachability/ordering on the extracted run-state machine with ghost variables for output tags and hardware + structural pause-site rule",
             "Ghost variables follow whether the output tags hold live or safe values and what was last written to the "
             "hardware; engine start, every completing Stop and every pause state are checked; every pause site must apply the "
@@ -145,19 +145,19 @@ TABLE = {
             "same generator segment; Pause must not capture over an outstanding capture; writers of _prev_state are "
             "enumerated; on the extracted machine (with error pauses) no reachable Unpause restores a capture from an "
             "earlier run, an already-undone pause, or safe values captured during a pause.",
-            "Decides that a capture cannot outlive its pause; equality of the restored tag values is value-level and not decided."),
+            "Decides that a capture cannot outlive its pause; equality of the restored tag values is value-level and not decided. Also decided (R09e): _apply_safe_state captures the pre-value of every safe-valued write register on every loop path, before overwriting it, and returns exactly that collection; _apply_state restores every captured tag unconditionally (the call model the machine uses)."),
     "C10": ("ordered must-call sets on the CFGs of Stop/Restart + class-hierarchy walk of on_stop overrides",
             "Stop._run and Restart._run must call cancel_all_commands(self.name) -> tracking.disable -> emit_on_stop -> "
             "clear_run_id -> _stop_interpreter in dominance order (Restart then, after a yield, set_run_id -> enable -> "
             "emit_on_start); the cancel chain down to _finalize_command is checked link by link; every Tag subclass "
             "overriding on_stop must reach super().on_stop() on all paths (that is what ends simulations).",
-            "Decides the clean-up structure; completeness of the run log at every stop point and UOD callback behaviour are not decided."),
+            "Decides the clean-up structure; completeness of the run log at every stop point and UOD callback behaviour are not decided. Also decided (R10d): in _execute_uod_command every path from the acquisition of the instance to a raising exit finalizes it, and _finalize_command marks the request done on every path - Stop can only cancel what is still an executing request."),
     "C11": ("lifecycle typestate rules on the CFG of CommandManager._execute_uod_command",
             "Both cancel loops must dominate instance creation and every execute(); creation only without an existing "
             "instance; initialize only when not initialised and before execute; finalize only through guarded sites; from "
             "create_command every path to any exit (normal or raising, under the typestate of a fresh instance) must pass "
             "execute or a finalisation; finalize must dispose.",
-            "Decides the lifecycle structure of the command manager; exceptions thrown by UOD callbacks during finalisation are not decided."),
+            "Decides the lifecycle structure of the command manager; exceptions thrown by UOD callbacks during finalisation are not decided. R11a classifies cancel sites by their guard (same name / both names in one declared overlap list, directly or through a relation on the uod whose construction must accumulate over the declared lists)."),
     "C12": ("check-before-mutate dominance + sibling agreement of cancel/force handlers + flag-consultation audit of interpreter waiting loops",
             "Record states Cancelled/Forced must not be reachable from a refused node.cancel()/force(); no caller may "
             "disable that check; flags are set only when offered; cancel_instruction and force_instruction must both "
@@ -188,7 +188,7 @@ TABLE = {
             "cancellable=forcible=False last, and append the item; the exclusion table equals the property's list; every "
             "visitor pairs node.completed = True with tracking.mark_completed. All are facts over every record history.",
             "Decides these structural clauses; producibility for arbitrary runtime state orders (the raise sites of the "
-            "generator) and monotonicity of the clock itself are not decided."),
+            "generator) and monotonicity of the clock itself are not decided. R15f additionally decides one producibility clause: a command request never receives two different conclusive record states (which makes the generator raise for the rest of the run) - violated on the pinned tree, repaired (fixed entry)."),
     "C34": ("must-precede (sort before use across two cooperating functions), sibling agreement of column iteration, "
             "one-cell-per-entry path count, loop-shape and guard-dominance rules on the sample-and-hold cursor",
             "The row writer's cursor algorithm needs sorted values (established as a side effect of the header writer: "
@@ -231,19 +231,19 @@ TABLE = {
             "Every node class the parser can emit has a visit_<Class> on PInterpreter's MRO, every interpreter command and "
             "engine command name has a handler/class; child_index is incremented once, after the child's generator; completed "
             "nodes are never dispatched; started is set only after the threshold wait; trailing blank/comment lines are never passed.",
-            "Exactly-once and ordering for arbitrary nestings and timings are runtime properties and not decided."),
+            "Exactly-once and ordering for arbitrary nestings and timings are runtime properties and not decided. The blank/comment rule follows `yield from self.<helper>(node)` delegation and has an instance floor (it once passed vacuously on a refactoring)."),
     "C03": ("constant-table agreement (duration units/multipliers) and data-flow orientation of the threshold comparison",
             "The unit list of the duration regexes, the units and folded multipliers of get_duration_end and the groups used by "
             "Wait/Pause/Hold must agree; the threshold comparison must be '<'(scope clock, node.threshold) with the clock "
             "selected by the Block tag and the provider's (main, block) tuple order consistent end to end.",
             "The timing clauses (no later than the first tick, one tick interval) relate two runtime clocks and are not decided; "
-            "an unrecognised rewrite of the anchors yields exit 2, never a violation."),
+            "an unrecognised rewrite of the anchors yields exit 2, never a violation. Built as role-based dataflow (no local-name matching); a threshold operand that comes from a helper memoised under an incomplete key is a violation, any other helper exits 2."),
     "C04": ("dominance / post-dominance rules on the Watch and Alarm visitors and on the block-end sites",
             "The body invocation is reachable only through the activation loop's exit; activation is written only under forced "
             "or a true condition and never for a cancelled node; a cancelled Watch leaves the wait loop before trying to "
             "activate; Watch completion and the Alarm re-arm sequence post-dominate the body; every block_ended = True is "
             "followed by _abort_block_interrupts on all paths.",
-            "Tick-exact interleavings of condition, cancel, force and End block are not decided."),
+            "Tick-exact interleavings of condition, cancel, force and End block are not decided. Also decided (R04d): every self.visit(child) in _visit_children is dominated by the un-weakened false outcome of _is_in_ended_block(child)."),
     "C05": ("sibling agreement of the two End-block visitors + lock acquire/release pairing on the CFG of visit_BlockNode",
             "End block and End blocks must perform the same per-block effect set and write the Block tag; the lock-acquired "
             "branch must announce the block before the body; every normal exit releases the lock; completion after the body is "
